@@ -431,6 +431,63 @@ theorem nested_sorts_correct (outer : SortReq α) (inners : List (SortReq α))
   intro q hq
   simp [hi q hq]
 
+/-- **reentrant_sorts_correct.**  (After the proposed fix.)  While an outer sort is active on the shared sorter, any
+interleaving of its comparator calls with complete inner sorts — triggered by key evaluations, e.g. the first
+reference to a top-level variable whose body sorts — leaves every outer comparison equal to the cache-free
+comparison of the OUTER keys and makes every inner sort return the stable sorted permutation of ITS nodes under
+ITS keys. -/
+theorem reentrant_sorts_correct (env : Env α) (nodes : List α) (keys : List Key) (hk : keys ≠ [])
+    (events : List (SortEvent α))
+    (hev : ∀ e ∈ events, match e with
+      | .compare l r => WF nodes l ∧ WF nodes r
+      | .inner q => CollationOK q.env)
+    (s : Sorter α) (hs : s.keys = keys) (hinv : CacheInv env nodes keys.length s.caches) :
+    runEvents innerSortFixed env nodes.length s events = events.map (fun e => match e with
+      | .compare l r => EventResult.cmp (compare env keys l.1 r.1)
+      | .inner q => EventResult.sorted (match q.abort with
+          | some _ => none
+          | none => some (sortNodes q.env q.keys q.nodes))) := by
+  induction events generalizing s with
+  | nil => rfl
+  | cons e rest ih =>
+    have hrest : ∀ e' ∈ rest, match e' with
+        | .compare l r => WF nodes l ∧ WF nodes r
+        | .inner q => CollationOK q.env := fun e' he' => hev e' (by simp [he'])
+    obtain ⟨sc, sk, ss⟩ := s
+    simp only at hs hinv
+    subst hs
+    cases e with
+    | compare l r =>
+      have hw := hev (.compare l r) (by simp)
+      simp only at hw
+      have hc := compareM_ok env nodes sk dummyValue_not_nan sc l r hinv hw.1 hw.2
+      unfold compareM at hc
+      simp only [runEvents, List.map_cons]
+      rw [hc.1, ih hrest ⟨(compareFromM env sk.length nodes.length sk 0 sc l r).1, sk, ss⟩ rfl hc.2]
+    | inner q =>
+      have hq := hev (.inner q) (by simp)
+      simp only at hq
+      have hne : (sk.isEmpty == false) = true := by
+        cases sk with
+        | nil => exact absurd rfl hk
+        | cons _ _ => rfl
+      simp only [runEvents, List.map_cons, innerSortFixed, hne, if_true]
+      rw [ih hrest ⟨sc, sk, ss⟩ rfl hinv]
+      congr 2
+      cases ha : q.abort with
+      | some c => simp [sortOnce]
+      | none => exact sortOnce_correct q.env hq q.keys q.nodes {} ⟨rfl, rfl, rfl⟩
+
+/-- **sharedSorter_reentrancy_counterexample.**  The code as it was: an inner sort started while the shared sorter
+holds the outer sort's key — inner nodes `[0,1,2]`, to be sorted descending — is not what the inner sort alone
+gives (`[2,1,0]`), and it leaves the OUTER sort without its key. -/
+theorem sharedSorter_reentrancy_counterexample :
+    let envO : Env Nat := ⟨fun _ => strCompare, fun _ n => Dbl.ofBits (0x4000000000000000 + n * 0x10000000000000), fun _ _ => []⟩
+    let busy : Sorter Nat := { caches := {}, keys := [⟨true, false⟩], scratch := scratch [0, 1, 2] }
+    let q : SortReq Nat := ⟨envO, [⟨true, true⟩], [0, 1, 2], none⟩
+    (innerSortFixed busy q).2 = some [2, 1, 0] ∧ (innerSortFixed busy q).1.keys = [⟨true, false⟩] ∧
+    (innerSortShared busy q).2 ≠ some [2, 1, 0] ∧ (innerSortShared busy q).1.keys = [] := by decide
+
 /-- **noCacheGuards_counterexample.**  With the two cache guards replaced by `clear()` calls after `stable_sort`,
 a sort that aborts after three comparisons leaves its key values behind, and the next sort of the same sorter
 orders its own nodes by them: `[0, 1, 2]` instead of `[2, 1, 0]`.  (Replayed on the real library by the check's
